@@ -254,6 +254,12 @@ def _impl_xy(c, t=None):
         if t is None:
             t = TraceSet(_fits_rec(c))
         xpos = None if c.get('xpos') is None else np.array(c['xpos'], dtype='d').reshape(c['xshape'])
+        if c.get('xjumplo') is not None:
+            # the answer must not depend on what the same object was asked before: evaluate once with the other flag first
+            try:
+                traceset2xy(t, xpos, not c['ignore_jump'])
+            except Exception:
+                pass
         x, y = traceset2xy(t, xpos, c['ignore_jump'])
         return {'ok': {'x': x.tolist(), 'y': y.tolist()}}
     except Exception as e:
